@@ -167,13 +167,19 @@ Fixpoint pow_loop (mul_eq : rdpe -> rdpe -> rdpe) (fuel : nat) (re t : rdpe) (i 
     if i =? 0 then re
     else pow_loop mul_eq f (if Z.odd i then mul_eq re t else re) (rdpe_sqr_eq t) (Z.shiftr i 1)
   end.
-(* i = LONG_MIN makes the C loop run forever (i = -i wraps, -1 >> 1 = -1): excluded by callers *)
-Definition rdpe_pow_si_gen (mul_eq : rdpe -> rdpe -> rdpe) (x : rdpe) (i : Z) : rdpe :=
+(* code as it was:  if (i < 0) { rdpe_inv (t, t); i = -i; }  while (i) { ...; i >>= 1; }  on a signed long:
+   for i = LONG_MIN the negation wraps (UB), i stays negative and the arithmetic shift never reaches 0: the C loop
+   does not terminate (C12_pow_si_long_min_refuted).  Repaired by fixes/C12_pow_si_long_min.patch: the loop runs on
+   n = |i| as an unsigned long (2^63 for LONG_MIN, 64 rounds).  `neg` is the negation used: wrapping (old) or exact. *)
+Definition rdpe_pow_si_gen (mul_eq : rdpe -> rdpe -> rdpe) (neg : Z -> Z) (x : rdpe) (i : Z) : rdpe :=
   let t := if i <? 0 then rdpe_inv x else x in
-  let i' := if i <? 0 then wrap64 (- i) else i in
+  let i' := if i <? 0 then neg i else i in
   pow_loop mul_eq 64 rdpe_one t i'.
-Definition rdpe_pow_si := rdpe_pow_si_gen rdpe_mul_eq.
-Definition rdpe_pow_si_old := rdpe_pow_si_gen rdpe_mul_eq_old.
+Definition neg_wrap (i : Z) : Z := wrap64 (- i).
+Definition rdpe_pow_si := rdpe_pow_si_gen rdpe_mul_eq Z.opp.
+Definition rdpe_pow_si_old := rdpe_pow_si_gen rdpe_mul_eq_old neg_wrap.
+(* the loop counter of the code as it was, after k rounds *)
+Fixpoint pow_counter_old (k : nat) (i : Z) : Z := match k with O => i | S k' => pow_counter_old k' (Z.shiftr i 1) end.
 
 (* ---- relational -------------------------------------------------------------- *)
 Definition rdpe_cmp_gen (sub : rdpe -> rdpe -> rdpe) (x y : rdpe) : Z :=
@@ -279,9 +285,9 @@ Fixpoint cpow_loop (mul : rdpe -> rdpe -> rdpe) (fuel : nat) (rc t : cdpe) (i : 
     if i =? 0 then rc
     else cpow_loop mul f (if Z.odd i then cdpe_mul_gen mul rc t else rc) (cdpe_sqr_eq_gen mul t) (Z.shiftr i 1)
   end.
-Definition cdpe_pow_si_gen (mul : rdpe -> rdpe -> rdpe) (c : cdpe) (i : Z) : cdpe :=
+Definition cdpe_pow_si_gen (mul : rdpe -> rdpe -> rdpe) (neg : Z -> Z) (c : cdpe) (i : Z) : cdpe :=
   let t := if i <? 0 then cdpe_inv_gen mul c else c in
-  let i' := if i <? 0 then wrap64 (- i) else i in
+  let i' := if i <? 0 then neg i else i in
   cpow_loop mul 64 cdpe_one t i'.
 
 Definition cdpe_mul := cdpe_mul_gen rdpe_mul.
@@ -289,13 +295,13 @@ Definition cdpe_inv := cdpe_inv_gen rdpe_mul.
 Definition cdpe_sqr := cdpe_sqr_gen rdpe_mul.
 Definition cdpe_sqr_eq := cdpe_sqr_eq_gen rdpe_mul.
 Definition cdpe_div := cdpe_div_gen rdpe_mul.
-Definition cdpe_pow_si := cdpe_pow_si_gen rdpe_mul.
+Definition cdpe_pow_si := cdpe_pow_si_gen rdpe_mul Z.opp.
 Definition cdpe_mul_old := cdpe_mul_gen rdpe_mul_old.
 Definition cdpe_inv_old := cdpe_inv_gen rdpe_mul_old.
 Definition cdpe_sqr_old := cdpe_sqr_gen rdpe_mul_old.
 Definition cdpe_sqr_eq_old := cdpe_sqr_eq_gen rdpe_mul_old.
 Definition cdpe_div_old := cdpe_div_gen rdpe_mul_old.
-Definition cdpe_pow_si_old := cdpe_pow_si_gen rdpe_mul_old.
+Definition cdpe_pow_si_old := cdpe_pow_si_gen rdpe_mul_old neg_wrap.
 
 Definition cdpe_set_d (dr di : b64) : cdpe := cdpe_norm (Cdpe (Rdpe dr 0) (Rdpe di 0)).
 Definition cdpe_get_d (c : cdpe) : b64 * b64 := (rdpe_get_d (cre c), rdpe_get_d (cim c)).
